@@ -49,7 +49,7 @@ fn snap(root: &Path) -> String {
     join(",", &out)
 }
 
-const PROBE_SCOPES: &[&str] = &["A", "B", "L", "P:776562", "P:776f726b6572"];
+const PROBE_SCOPES: &[&str] = &["A", "B", "L", "P:776562", "P:776f726b6572", "P:6275696c64", "P:6c61756e6368"];
 fn probes(le: &LayerEnv, names: &[Vec<u8>], layer: &Path) -> String {
     let mut dn: Vec<Vec<u8>> = vec![];
     for n in names { if !dn.contains(n) { dn.push(n.clone()); } }
@@ -111,7 +111,7 @@ fn run_case(f: &[String]) -> String {
 
 const NAMES: &[&[u8]] = &[b"A", b"B", b"PATH", b"A.b", b".hid", b"a.", b"\xffz", b"A.append", b"x y", b"..", b"A.b.c"];
 const VALS: &[&[u8]] = &[b"", b"x", b"y\n", b"/bin:/usr/bin", b"\xfe\x00", b":"];
-const SCOPES: &[&str] = &["A", "B", "L", "P:776562", "P:776f726b6572"];
+const SCOPES: &[&str] = &["A", "B", "L", "P:776562", "P:776f726b6572", "P:6275696c64"];
 const BEHS: &[&str] = &["a", "d", "m", "o", "p"];
 const EXTRAS: &[&[u8]] = &[b"data.txt", b"env.other", b"envx", b"launch.toml", b".keep"];
 
@@ -155,6 +155,23 @@ fn generate(tier: &str, seed: u64, emit: &mut dyn FnMut(Case)) {
         let mut extras = vec![];
         for x in EXTRAS { if r.chance(1, 4) { extras.push((x.to_vec(), r.pick(VALS).to_vec())); } }
         emit(mk_w(&old, &new, &extras, "rndW"));
+        // correlated pairs: the new env is the old one with some entries dropped / changed / added, so that whole scopes
+        // are byte-identical between the two writes while others shrink or vanish
+        if idx % 2 == 0 && !old.is_empty() {
+            let mut new2: Vec<Ins> = vec![];
+            let drop_scope = *r.pick(SCOPES);
+            for i in &old { if i.0 == drop_scope && r.chance(3, 4) { continue; } if r.chance(1, 8) { continue; } let mut j = i.clone(); if r.chance(1, 8) { j.3 = r.pick(VALS).to_vec(); } new2.push(j); }
+            if r.chance(1, 4) { new2.extend(gen_ins(&mut r, true).into_iter().take(1)); }
+            emit(mk_w(&old, &new2, &extras, "corrW"));
+        }
+    }
+    // every way of dropping one scope from an env that populates all scopes (identical remaining scopes)
+    {
+        let full: Vec<Ins> = SCOPES.iter().flat_map(|s| vec![(s.to_string(), "o".to_string(), b"K".to_vec(), b"1".to_vec()), (s.to_string(), "a".to_string(), b"K".to_vec(), b"2".to_vec())]).collect();
+        for mask in 0u32..(1 << SCOPES.len()) {
+            let new: Vec<Ins> = full.iter().filter(|i| { let k = SCOPES.iter().position(|s| *s == i.0).unwrap(); mask & (1 << k) != 0 }).cloned().collect();
+            emit(mk_w(&full, &new, &[], "exh-dropscopes"));
+        }
     }
     // read side: spec-shaped env directories with arbitrary file names (no two files designating one key)
     let fnames: &[&[u8]] = &[b"A", b"A.append", b"A.default", b"A.delim", b"A.prepend", b"B.override", b"C.unknown", b"D.", b".E", b".E.append", b"F.b.append", b"G.APPEND", b"H.append.bak", b"\xffI.prepend", b"J.\xff", b"K K", b"L.override.override"];
